@@ -92,6 +92,52 @@ macro_rules! parts {
 
 static SYS: LockStep = LockStep { property: "C08", probes: false, seed: None };
 
+/// every way of blanking cells must use the current pen
+fn blank_seed(cfg: &Cfg) -> Vec<Cmd> {
+    let n = cfg.cols * cfg.rows;
+    let s: String = (0..n).map(|i| char::from_u32('a' as u32 + (i % 26) as u32).unwrap()).collect();
+    vec![Text(s), Cup(Some(1), Some(1))]
+}
+static SYS_BLANK: LockStep = LockStep { property: "C08", probes: false, seed: Some(&blank_seed) };
+
+fn alpha_blank(cfg: &Cfg) -> Vec<Op> {
+    let rows = cfg.rows as u32;
+    let mut v: Vec<Op> = vec![
+        c(sgr1(41)),
+        c(Sgr(vec![vec![Some(1)], vec![Some(38)], vec![Some(5)], vec![Some(200)], vec![Some(48), Some(2), Some(1), Some(2), Some(3)]])),
+        c(sgr1(0)),
+        c(El(None)),
+        c(El(Some(1))),
+        c(El(Some(2))),
+        c(Ed(None)),
+        c(Ed(Some(1))),
+        c(Ed(Some(2))),
+        c(Ech(Some(1))),
+        c(Ich(Some(1))),
+        c(Dch(Some(1))),
+        c(Il(None)),
+        c(Dl(None)),
+        c(Su(None)),
+        c(Sd(None)),
+        c(Su(Some(2))),
+        c(Lf),
+        c(Ri),
+        c(Nel),
+        c(Decstbm(Some(1), Some(rows.saturating_sub(1).max(2)))),
+        c(Decstbm(Some(2), Some(rows))),
+        c(Decstbm(None, None)),
+        c(Cup(None, None)),
+        c(Cup(Some(99), Some(99))),
+        c(Cup(Some(2), Some(2))),
+        c(DecSet(vec![1047])),
+        c(DecRst(vec![1047])),
+        c(DecSet(vec![1049])),
+        t("yz"),
+    ];
+    v.push(Op::resize(cfg.cols, cfg.rows + 1));
+    v
+}
+
 fn rep_set() -> Vec<Vec<Vec<Option<u32>>>> {
     // 24 representative parameters (each a list of tokens)
     let one = |v: u32| vec![vec![Some(v)]];
@@ -220,13 +266,30 @@ fn all_indices(ctx: &Ctx, rep: &mut Report) {
     rep.parts.push(json!({"part":"all-indices","cases":n}));
 }
 
+fn blank_part(tier: Tier) -> Part<'static, LockStep> {
+    Part {
+        name: "every-way-of-blanking",
+        sys: &SYS_BLANK,
+        cfgs: match tier {
+            Tier::Quick => cfgs(&[(2, 3), (2, 4)], &[None]),
+            Tier::Thorough => cfgs(&[(2, 2), (2, 3), (3, 3), (2, 4)], &[None, Some(0)]),
+        },
+        alphabet: &alpha_blank,
+        depth: tier.pick(4, 5),
+        seconds: tier.pick(25.0, 1800.0),
+        validated: true,
+        nontrivial: Some("lockstep_transitions"),
+    }
+}
+
 pub fn run(ctx: &Ctx) -> Report {
     let mut rep = Report::new();
     let p = parts!(ctx.tier, &SYS);
     run_part(ctx, &mut rep, &p);
+    run_part(ctx, &mut rep, &blank_part(ctx.tier));
     combos(ctx, &mut rep);
     all_indices(ctx, &mut rep);
-    rep.rule = "(a) lock-step BFS to FIXPOINT over the pen space: every implemented SGR code as its own sequence (both colour encodings, 7/8-bit CSI, unknown codes), each followed by CR, a printed char and EL; the hidden pen and both cells (all nine accessors) are compared for every reachable prior pen; (b) every ordered pair and triple from 24 representative parameters inside one sequence and as separate sequences, 7- and 8-bit; (c) all 256 indices x fg/bg x ';' and ':' forms".into();
+    rep.rule = "(a) lock-step BFS to FIXPOINT over the pen space: every implemented SGR code as its own sequence (both colour encodings, 7/8-bit CSI, unknown codes), each followed by CR, a printed char and EL; the hidden pen and both cells (all nine accessors) are compared for every reachable prior pen; (b) every ordered pair and triple from 24 representative parameters inside one sequence and as separate sequences, 7- and 8-bit; (c) all 256 indices x fg/bg x ';' and ':' forms; (d) lock-step BFS from a letter-filled screen over every way of blanking cells (EL/ED/ECH/ICH/DCH/IL/DL/SU/SD, LF/RI/NEL and wrap scrolls in top-anchored, inner and full regions, alternate-screen entry) under three pens: a vacated blank must carry the current pen".into();
     rep.assumptions = vec!["malformed colour forms and components > 255 are unspecified and not generated".into()];
     rep
 }
@@ -239,6 +302,10 @@ pub fn replay(ctx: &Ctx, v: &Value) -> bool {
             combos(&c2, &mut rep);
             all_indices(&c2, &mut rep);
             rep.violations > 0
+        }
+        "every-way-of-blanking" => {
+            let tier = if v["tier"] == "thorough" { Tier::Thorough } else { Tier::Quick };
+            replay_part(ctx, &blank_part(tier), v)
         }
         _ => {
             let tier = if v["tier"] == "thorough" { Tier::Thorough } else { Tier::Quick };
